@@ -22,7 +22,8 @@ type Reader interface {
 
 // Probe selects which keys get point lookups / which indexes get by-index lookups (nil = all of them).
 type Probe struct {
-	Keys []int // universe indexes
+	Keys   []int // universe indexes
+	AllIdx bool  // GetByIndex for EVERY index even on big trees (default: all indexes only up to 64 entries)
 }
 
 // CheckContents is the light observer: Size + full ordered iteration only.
@@ -162,7 +163,7 @@ func CheckReads(m *Model, c Content, rd Reader, probe *Probe) string {
 		}
 		return ""
 	}
-	if probe == nil || len(exp) <= 64 {
+	if probe == nil || probe.AllIdx || len(exp) <= 64 {
 		for j := range exp {
 			if d := byIdx(j); d != "" {
 				return d
